@@ -1538,3 +1538,10 @@ pub fn monitor_outbound_htlc_prev_hops<Signer: crate::sign::ecdsa::EcdsaChannelS
 	out.sort();
 	out
 }
+
+/// H12 (C10), write side: when set, `FundedChannel::write` also writes the committed inbound
+/// HTLCs' `update_add_htlc`s (TLV 75), as `cfg(test)` builds always do; the
+/// reconstruct-from-monitors reload path ([`RELOAD_RECONSTRUCT_FROM_MONITORS`]) needs them.
+/// Defaults to `false` (production bytes).
+pub static WRITE_INBOUND_COMMITTED_UPDATE_ADDS: core::sync::atomic::AtomicBool =
+	core::sync::atomic::AtomicBool::new(false);
